@@ -143,7 +143,7 @@ func hashTable() string {
 // sigAlgTable: VerifySignature's switch.
 func sigAlgTable() string {
 	rel := "tls/signature.go"
-	fd := mustFunc(rel, "VerifySignature")
+	fd := canonFunc(rel, "VerifySignature", "generateHash", "checkExactDER")
 	codes := typedConsts("tls/types.go", "SignatureAlgorithm")
 	// prologue: digest from the declared hash, error returned
 	if len(fd.Body.List) != 4 {
@@ -517,7 +517,7 @@ func signedJSON() string {
 func verifyWrappers() string {
 	rel := "signatures.go"
 	check := func(fn string, want []string) {
-		fd := mustFunc(rel, "SignatureVerifier."+fn)
+		fd := canonFunc(rel, "SignatureVerifier."+fn)
 		if len(fd.Body.List) != len(want) {
 			panic(bail{fmt.Sprintf("%s: %s has %d statements, expected %d", rel, fn, len(fd.Body.List), len(want))})
 		}
@@ -535,9 +535,9 @@ func verifyWrappers() string {
 	}
 	check("VerifySignature", []string{"return tls.VerifySignature(s.PubKey, data, sig)"})
 	check("VerifySCTSignature", []string{"DATA, err := SerializeSCTSignatureInput(sct, entry)", "if err != nil { return err }",
-		"return s.VerifySignature(DATA, tls.DigitallySigned(sct.Signature))"})
+		"return tls.VerifySignature(s.PubKey, DATA, tls.DigitallySigned(sct.Signature))"})
 	check("VerifySTHSignature", []string{"DATA, err := SerializeSTHSignatureInput(sth)", "if err != nil { return err }",
-		"return s.VerifySignature(DATA, tls.DigitallySigned(sth.TreeHeadSignature))"})
+		"return tls.VerifySignature(s.PubKey, DATA, tls.DigitallySigned(sth.TreeHeadSignature))"})
 	return "/-- generated from " + rel + ": VerifySCTSignature is `SerializeSCTSignatureInput(sct, entry)`, its error returned, then\n`VerifySignature(sctData, sct.Signature)` with the verifier's key -/\ndef sctVerifySerializesThenVerifies : Bool := true\n" +
 		"/-- generated from " + rel + ": VerifySTHSignature is `SerializeSTHSignatureInput(sth)`, its error returned, then\n`VerifySignature(sthData, sth.TreeHeadSignature)` with the verifier's key -/\ndef sthVerifySerializesThenVerifies : Bool := true\n"
 }
@@ -546,15 +546,18 @@ func verifyWrappers() string {
 // against the leaf createLeaf builds from the chain; LogInfo.VerifySCTSignature verifies with the verifier built by newLogInfo.
 func ctutilShape() string {
 	rel := "ctutil/ctutil.go"
-	fd := mustFunc(rel, "VerifySCT")
-	want := []string{"s, err := ct.NewSignatureVerifier(pubKey)", "", "return VerifySCTWithVerifier(s, chain, sct, embedded)"}
-	if len(fd.Body.List) != 3 || src(fd.Body.List[0]) != want[0] || src(fd.Body.List[2]) != want[2] {
+	fd := canonFunc(rel, "VerifySCT", "VerifySCTWithVerifier", "createLeaf")
+	if len(fd.Body.List) != 3 {
+		panic(bail{rel + ": VerifySCT no longer is NewSignatureVerifier → VerifySCTWithVerifier"})
+	}
+	vm := regexp.MustCompile(`^(\w+), err := ct\.NewSignatureVerifier\(pubKey\)$`).FindStringSubmatch(src(fd.Body.List[0]))
+	if vm == nil || src(fd.Body.List[2]) != "return VerifySCTWithVerifier("+vm[1]+", chain, sct, embedded)" {
 		panic(bail{rel + ": VerifySCT no longer is NewSignatureVerifier → VerifySCTWithVerifier"})
 	}
 	if is, ok := fd.Body.List[1].(*ast.IfStmt); !ok || src(is.Cond) != "err != nil" || !returnsNonNilError(is.Body) {
 		panic(bail{rel + ": VerifySCT does not return NewSignatureVerifier's error"})
 	}
-	fd = mustFunc(rel, "VerifySCTWithVerifier")
+	fd = canonFunc(rel, "VerifySCTWithVerifier", "createLeaf")
 	n := len(fd.Body.List)
 	if n < 3 || src(fd.Body.List[n-1]) != "return sv.VerifySCTSignature(*sct, ct.LogEntry{Leaf: *leaf})" || !strings.Contains(src(fd.Body.List[n-3]), "leaf, err := createLeaf(chain, sct, embedded)") {
 		panic(bail{rel + ": VerifySCTWithVerifier no longer ends in createLeaf → VerifySCTSignature(*sct, LogEntry{Leaf: *leaf})"})
